@@ -52,7 +52,7 @@ MATCHERS = {
 }
 
 TEXTS_PER_DOC = {"quick": 5, "thorough": 6}
-N_RANDOM = {"quick": 160, "thorough": 4000}       # generated documents (1-4 texts each, 9 contexts per text)
+N_RANDOM = {"quick": 160, "thorough": 1000}       # generated documents (1-4 texts each, 9 contexts per text)
 
 
 def _items(ctx):
@@ -68,16 +68,27 @@ def _items(ctx):
     # the "bulk" path is one BulkUpdateRecord of colId: only different from "colId" for several columns
     groups.setdefault((v, g, p), []).append({"expr": expr, "style": style})
 
-  # wide family: every tree x every rename x two (spelling, path) pairs taken in turn
-  for k, e in enumerate(space["wide"]):
-    for g in range(len(targets)):
-      for s, p in (((k + g) % len(styles), (k + 2 * g) % len(paths)), ((k + g + 2) % len(styles), (k + 2 * g + 1) % len(paths))):
-        put(e, styles[s], k % len(variants), g, paths[p])
+  nt, ns, npth = len(targets), len(styles), len(paths)
+  if ctx.quick:
+    # wide family: every tree x every rename x two (spelling, path) pairs taken in turn
+    for k, e in enumerate(space["wide"]):
+      for g in range(nt):
+        for s, p in (((k + g) % ns, (k + 2 * g) % npth), ((k + g + 2) % ns, (k + 2 * g + 1) % npth)):
+          put(e, styles[s], k % len(variants), g, paths[p])
+          n += 1
+    # narrow family: every tree x two renames taken in turn x one (spelling, path)
+    narrow_targets = lambda k: (k % nt, (k + 3) % nt)   # noqa: E731
+  else:
+    # wide family (much larger): every tree x four renames (the mentioned column of T, the same-named column of
+    # U, two columns at once or a chain, an unrelated column - variants taken in turn) x one (spelling, path)
+    for k, e in enumerate(space["wide"]):
+      for g in (k % 2, 2, 5 + k % 2, 3 + k % 2):
+        put(e, styles[(k + g) % ns], k % len(variants), g, paths[(k // 2 + g) % npth])
         n += 1
-  # narrow family: every tree x two renames taken in turn x one (spelling, path)
+    narrow_targets = lambda k: (k % nt,)   # noqa: E731
   for k, e in enumerate(space["narrow"]):
-    for g in (k % len(targets), (k + 3) % len(targets)):
-      put(e, styles[(k + g) % len(styles)], k % len(variants), g, paths[(k // 2 + g) % len(paths)])
+    for g in narrow_targets(k):
+      put(e, styles[(k + g) % ns], k % len(variants), g, paths[(k // 2 + g) % npth])
       n += 1
   items = []
   for (v, g, p), exprs in sorted(groups.items()):
